@@ -238,6 +238,18 @@ class Machine:
                         td = self._member_probe(name, label, m, kind, {s: {"truth": False}} if s else None)
                         td["op"] = "set"
                         vv["%s.set:%s" % (m, s or "ok")] = self._call(td)
+                        if manual is not None:
+                            self._manual_member(name, obj, m, "prop_set", td, vv["%s.set:%s" % (m, s or "ok")], manual)
+                    if manual is not None:
+                        # with an invariant of the object falsified, assigning through the property must be reported
+                        for s in invs:
+                            obj._flags[s] = False
+                            td = self._member_probe(name, label, m, kind, None)
+                            td["op"] = "set"
+                            v_ = self._call(td)
+                            if not getattr(self.world.classes[name], "__invariants_on_setattr__", None):
+                                self._manual_member(name, obj, m, "prop_set", td, v_, manual)
+                            obj._flags.pop(s, None)
             # a capture that is only defined when the precondition holds: precondition falsified AND every capture raising
             pres = [s for s in self._sids_for(m) if "/pre" in s]
             snaps = sorted(s for s in self.world.contracts if re.match(r"^[A-Za-z0-9_]+\.%s(\.set)?/snap\d+$" % re.escape(m), s))
@@ -336,9 +348,11 @@ class Machine:
         if not fs:
             return
         f = fs[0][1]
+        if kind == "prop_set":
+            f = [x for sfx, x in fs if sfx == ".set"][0]
         self.manual_checks += 1
         # invariants first (those selected for calls), as the wrapper does
-        if kind in ("method", "prop") and getattr(cls, "__invariants__", None):
+        if kind in ("method", "prop", "prop_set") and getattr(cls, "__invariants__", None):
             idx = {id(c): sid for sid, c in self.world.contracts.items()}
             # the documented list is ``__invariants__``; an integrator selects those checked at calls by ``check_on``
             on_call = [inv for inv in cls.__invariants__ if icontract.InvariantCheckEvent.CALL in getattr(inv, "check_on", icontract.InvariantCheckEvent.CALL)]
@@ -351,6 +365,8 @@ class Machine:
             args = {"self": obj, "t": None}
         elif kind == "prop":
             args = {"self": obj}
+        elif kind == "prop_set":
+            args = {"self": obj, "value": None}
         elif kind == "class":
             args = {"cls": cls, "t": None}
         else:
